@@ -4,7 +4,7 @@
    scripted LLM completions, the dialog flows of the test configuration).  Nothing here is used
    by the theorems. *)
 From Coq Require Import List String Bool Arith.
-From NG Require Import Pipe.Rails Pipe.TurnV1 Pipe.TurnV2.
+From NG Require Import Pipe.Rails Pipe.TurnV1 Pipe.TurnV2 Pipe.FlowCheck Gen.C01Flows.
 Import ListNotations.
 Open Scope string_scope.
 Open Scope list_scope.
@@ -134,6 +134,11 @@ Definition check_turn_v2 (r : pstate2 * list tev * reply) (e : texp) : bool :=
 Definition check_v2_with (fixd : bool) (c : cfg2 * list turn_case * list texp) : bool :=
   let '(cf, turns, exps) := c in
   list_eqb check_turn_v2 (conv_v2_c fixd turns cf) exps.
+
+(* the Colang 2 model that corresponds to the CURRENT guardrails.co: whether `run output rails`
+   resets the flag on the failure path is decided by the checker on the translated file *)
+Definition current_fixd_run : bool := v2_resets_on_failure v2_run_output_rails.
+Definition check_v2 (c : cfg2 * list turn_case * list texp) : bool := check_v2_with current_fixd_run c.
 
 (* sanity: the F3 scenario on the shipped (fix = false) and on the repaired model *)
 Definition f3_turns :=
